@@ -9,6 +9,14 @@ COMMON_NOTE = ("Trusted base: rustc/cargo 1.80.1, serde/serde_json, syn, python 
                "see DESIGN.md section 4 'Outside' for what the bound leaves open.")
 
 CHECKS = {
+ "C07": dict(
+  text="Exhaustive enumeration of reference multigraphs over n definitions (n=1 and n=2 complete over 8 struct edge kinds, alias nodes and 4 enum payload kinds, n=3 over a reduced alphabet, each also with a definition sharing Option/tuple nodes with the cycle); every graph is ingested by the real typify-impl and the containment graph read from the public Type API is searched for a cycle without heap indirection, and for a Box in graphs without by-value cycle; graphs with a by-value cycle are compiled by rustc and recursive values round-tripped.",
+  design="DESIGN.md 4/C07", technique="exhaustive small-scope graph enumeration on the implementation + independent cycle search; compile/run tier on generated code",
+  note="n>=4, more than two out-edges per node and cycles through allOf are outside the bound; the quantifier's random n<=8 part is not sampled. " + COMMON_NOTE),
+ "C16": dict(
+  text="Explicit-state search: breadth-first over all histories of add_ref_types / add_root_schema / add_type_with_name calls (12-op alphabet with repeats, shared sub-schemas, hints that do and do not coincide with existing names) to depth 3 (quick) / 4 and 5 (thorough); each history is replayed on a fresh real TypeSpace with a snapshot after every call; invariants I1 (ids stable), I2 (repeat is idempotent), I3 (no duplicate items, parses), I4 (independent calls commute, split batches agree) are evaluated on every transition.",
+  design="DESIGN.md 4/C16", technique="explicit-state breadth-first search over API-call histories replayed on the real implementation, invariants on every state, differential commutation oracle",
+  note="States are canonicalised (sorted items + live type table) only for counting; every history is executed. Histories are not extended past an Err. " + COMMON_NOTE),
  "C11": dict(
   text="Bounded exhaustive enumeration of schemas yielding string-convertible types (every string-ish leaf as definition/alias, and every ordered pair and triple of an alternative menu as an untagged string enum, i.e. all order permutations); every string of the instance universe is sent through Deserialize and through each of FromStr / TryFrom<&str> / TryFrom<&String> / TryFrom<String> / Display that the emitted code implements, on the compiled type; routes must agree in success and value, Display must equal the serialized string.",
   design="DESIGN.md 4/C11", technique="bounded exhaustive enumeration of schemas x probe strings on compiled generated code, differential oracle between conversion routes",
